@@ -36,9 +36,11 @@ m = dict(
                baseline_off_cmd="cmake --build /repo/_build -j16 && OMP_NUM_THREADS=4 ctest --test-dir /repo/_build -j4 --timeout 900",
                source_commits=[], add_only=True),
     engines=[
-        dict(name="enum", path="/verif/engine/vf.hpp", serves_properties=ids, kind_free_text="bounded-exhaustive case enumeration with sharding, replay keys, evidence writer (vf.hpp, mk.hpp, run_check.py)"),
-        dict(name="vsched", path="/verif/engine/vsched.cpp", serves_properties=["C09", "C11", "C12", "C08"], kind_free_text="deterministic ucontext fiber scheduler + prefix-replay DFS explorer with preemption bound and state-hash pruning"),
-        dict(name="gomp_fiber", path="/verif/engine/gomp_fiber.cpp", serves_properties=["C09", "C08", "C07", "C06"], kind_free_text="libgomp ABI subset (GOMP_parallel/barrier/critical/single, omp_get_*) on vsched fibers; thread count is a harness variable"),
+        dict(name="enum", path="/verif/engine/vf.hpp", serves_properties=ids, kind_free_text="bounded-exhaustive case enumeration: case gate with sharding and replay keys, counters, violation records, evidence writer (vf.hpp), dense references and CRS builders from bit masks (mk.hpp), driver run_check.py (build against /repo, shard, merge, replay twice, known-findings matching)"),
+        dict(name="vsched", path="/verif/engine/vsched.cpp", serves_properties=["C09", "C11", "C12", "C08", "C07", "C06", "C03"], kind_free_text="deterministic ucontext fiber scheduler + prefix-replay DFS explorer: preemption bound, delay bound, state-hash pruning, deadlock detection, replay of choice lists"),
+        dict(name="gomp_fiber", path="/verif/engine/gomp_fiber.cpp", serves_properties=["C09", "C08", "C07", "C06", "C03"], kind_free_text="libgomp ABI subset (GOMP_parallel/barrier/critical/single, omp_get_*) on vsched fibers; thread count and schedule are harness variables; gomp_pthread.cpp = same ABI on a pthread pool for the free-running ThreadSanitizer pass; pvec.hpp = proxy vector whose element accesses are scheduling points"),
+        dict(name="minimpi", path="/verif/engine/minimpi/minimpi.cpp", serves_properties=["C11", "C12"], kind_free_text="in-process model of the MPI subset used by amgcl/mpi (ranks = fibers): FIFO matching, synchronising collectives, eager/late request completion and reduction order as explorer choices, deadlock diagnostics; validated against OpenMPI by C11 unit conf"),
+        dict(name="heapfill", path="/verif/engine/heapfill.cpp", serves_properties=["C10", "C17", "C20"], kind_free_text="replacement global operator new/delete: fill pattern per fresh block, poison on delete, live-block ledger; forkrun.hpp = one case (or batch) per forked child so crashes are observed outcomes"),
     ],
     checks=checks,
     not_applicable=na,
